@@ -13,7 +13,6 @@ import KavaVerif.Props.C15
 #print axioms KV.Ante.C15_routing_eth_msgs_only_on_eth_path
 #print axioms KV.Ante.C15_routing_eth_path_only_eth_msgs
 #print axioms KV.Ante.C15_chain_order
-#print axioms KV.Ante.C15_mempool_counterexample
-#print axioms KV.Ante.C15_mempool_partial
+#print axioms KV.Ante.C15_mempool
 #print axioms KV.Ante.C15_mempool_block_execution_unaffected
 #print axioms KV.Ante.C15_mempool_decorator
